@@ -72,5 +72,10 @@ C10_ManifestLagsByAtMostOne == pc = "crashed" => doneThisRun \subseteq Range(dis
 C10_ResumeEqualsUninterrupted == pc = "done" => \A u \in Utts : files[u] = u - 1
 C10_NoRecompute == [][SaveBegin => Cur \notin startManifest]_vars
 C10_NoDup == \A a, b \in 1..Len(disk) : disk[a] = disk[b] => a = b
+\* what a run found listed stays listed, in the same order, whatever happens to the run (kills included): the manifest on
+\* disk only ever grows at its end, and a finished file is never taken back
+C10_ManifestOnlyGrows == [][/\ Len(disk) <= Len(disk')
+                            /\ \A k \in 1..Len(disk) : disk'[k] = disk[k]]_vars
+C10_ListedFileStaysComplete == [][\A u \in Range(disk) : files[u] >= 0 => files'[u] = files[u]]_vars
 EventuallyDone == <>(pc = "done")
 ===============================================================================
